@@ -257,7 +257,7 @@ tok_text = st.lists(st.sampled_from(TOKENS), min_size=0, max_size=12).map(''.joi
 def pair_strategy(draw):
     want = draw(tok_text)
     mode = draw(st.sampled_from(['indep', 'same', 'ellipsis', 'reflow', 'trail', 'quote_got', 'quote_want',
-                                 'colour', 'prefix', 'blank', 'mutate', 'mutate']))
+                                 'colour', 'prefix', 'blank', 'mutate', 'mutate', 'ellipsis_multi', 'ellipsis_dup']))
     got = want
     if mode == 'indep':
         got = draw(tok_text)
@@ -268,6 +268,25 @@ def pair_strategy(draw):
         cuts = sorted(draw(st.lists(st.integers(0, n), min_size=2, max_size=4)))
         a, b = cuts[0], cuts[-1]
         want = got[:a] + draw(st.sampled_from(['...', ' ... ', '...\n'])) + got[b:]
+    elif mode in ('ellipsis_multi', 'ellipsis_dup'):
+        # few distinct words, so that the literal pieces of the want occur several times in the got: two or three
+        # wildcards; 'dup' demands the tail once more than it occurs (only overlapping pieces could satisfy that)
+        words = draw(st.lists(st.sampled_from(['a', 'b', 'ab', 'a', 'x=1']), min_size=1, max_size=7))
+        seps = [draw(st.sampled_from([' ', ' ', '\n', ''])) for _ in words]
+        got = ''.join(w + s_ for w, s_ in zip(words, seps)).strip() or 'a'
+        n = len(got)
+        k = draw(st.integers(2, 3))
+        cuts = sorted(draw(st.lists(st.integers(0, n), min_size=2 * k, max_size=2 * k)))
+        parts, pos = [], 0
+        for i in range(k):
+            parts.append(got[pos:cuts[2 * i]])
+            parts.append(draw(st.sampled_from(['...', ' ... ', '...'])))
+            pos = cuts[2 * i + 1]
+        parts.append(got[pos:])
+        want = ''.join(parts)
+        if mode == 'ellipsis_dup':
+            tail = got[-draw(st.integers(1, min(3, n))):]
+            want = want + '...' + tail
     elif mode == 'reflow':
         got = re.sub(r'[ \t\n]+', lambda m: draw(st.sampled_from([' ', '  ', '\n', ' \n ', '\t'])), want)
     elif mode == 'trail':
